@@ -37,10 +37,10 @@ MOD = diag.MOD
 
 
 def check(ctx):
-    diag.check_cls_once(ctx)
-    diag.check_cls_key(ctx)
-    diag.check_verdict_keys(ctx)
-    diag.check_count_shape(ctx)
+    ctx.run(diag.check_cls_once)
+    ctx.run(diag.check_cls_key)
+    ctx.run(diag.check_verdict_keys)
+    ctx.run(diag.check_count_shape)
 
 
 def variants(program):
